@@ -17,6 +17,9 @@ for d in "$VERIF"/seeded/$PAT/; do
   [ "$id" = "C19-P" ] && nomiri=""
   [ "$id" = "C19-U" ] && nomiri=""
   [ "$id" = "C19-X" ] && nomiri=""
+  # C19-I: a narrow window (the 256th match while two threads report); first hit around world
+  # 400 000 with the current generator - thorough-tier territory, so give it 150 s here
+  if [ "$id" = "C19-I" ]; then export VERIF_BUDGET_S=150 VERIF_WORLDS=2000000; else unset VERIF_BUDGET_S; [ "${VERIF_WORLDS:-}" = "2000000" ] && unset VERIF_WORLDS; fi
   # C19-U: the agent volunteered a hook site inside the race window; the regression uses the
   # variant without it
   pf="$d/patch.diff"; [ -f "$d/patch-nohook.diff" ] && pf="$d/patch-nohook.diff"
